@@ -110,6 +110,23 @@ Section Rewrite.
   Definition rewrite (l : list tok) : list tok := rewrite_f (length l) l.
 End Rewrite.
 
+(* The repairs proposed in /verif/fixes/C14_*.patch, each switchable: [fx_none] is the code as it was when
+   the findings were made; tools/props/C14.py detects on every run which of them the current source has
+   (probe statements) and evaluates the model for that variant.
+     fx_with      C14_header_cte_names_same_pattern    the header converters use the CTE names of the permission check
+     fx_dedup     C14_dedup_refs_exact_case            unqualified references de-duplicated on the name as written
+     fx_scanner   C14_table_position_scanner           "(" and LATERAL keep the table position; TABLE, DESCRIBE ... open one
+     fx_denylist  C14_io_denylist_sql_text_functions   denylist + query / json_execute_serialized_sql ...; the denylist and the
+                                                       string-in-table-position check also run on the comment-safe normalisation
+     fx_noraw     C14_no_raw_text_fast_paths           the request text itself is never executed
+     fx_bsq       C14_reject_backslash_before_quote    a backslash before a quote in a literal is refused *)
+Record fixset := { fx_with : bool; fx_dedup : bool; fx_scanner : bool; fx_denylist : bool; fx_noraw : bool; fx_bsq : bool }.
+Definition fx_none : fixset :=
+  {| fx_with := false; fx_dedup := false; fx_scanner := false; fx_denylist := false; fx_noraw := false; fx_bsq := false |}.
+Definition fx_of_bits (n : N) : fixset :=
+  {| fx_with := N.testbit n 0; fx_dedup := N.testbit n 1; fx_scanner := N.testbit n 2; fx_denylist := N.testbit n 3;
+     fx_noraw := N.testbit n 4; fx_bsq := N.testbit n 5 |}.
+
 (* ------------------------------------------------------------------------------------ *)
 (* 2. the four table patterns and the CTE pattern                                         *)
 (* ------------------------------------------------------------------------------------ *)
@@ -358,14 +375,15 @@ Definition k_default : bytes := Eval vm_compute in s2b "default".
 Definition cand := option (bytes * ref).
 Definition db_key (db t : bytes) : bytes := db ++ 46 :: t.
 
-Definition simple_cand (names : names_t) (ctes : list bytes) (raw : bytes) (rest : list tok) : cand :=
+(* [ex]: the key is the name as written (fx_dedup), else its lower-cased form *)
+Definition simple_cand (ex : bool) (names : names_t) (ctes : list bytes) (raw : bytes) (rest : list tok) : cand :=
   let name := resolve names raw in
   let table := lower name in
   if should_skip table then None
   else if mem_bytes table ctes || mem_bytes (lower raw) ctes then None
   else if dot_at rest then None
   else if function_call_at rest then None
-  else Some (db_key k_default table, (k_default, name)).
+  else Some (db_key k_default (if ex then name else table), (k_default, name)).
 
 Fixpoint add_cands (seen : list bytes) (cs : list cand) : list bytes * list ref :=
   match cs with
@@ -378,12 +396,12 @@ Fixpoint add_cands (seen : list bytes) (cs : list cand) : list bytes * list ref 
 
 Definition db_cand (names : names_t) (a b : bytes) : cand :=
   let db := resolve names a in let t := resolve names b in Some (db_key db t, (db, t)).
-Definition extract_refs (names : names_t) (ts : list tok) : list ref :=
+Definition extract_refs (ex : bool) (names : names_t) (ts : list tok) : list ref :=
   let ctes := cte_names ts in
   let c1 := map (fun x => db_cand names (fst x) (snd x)) (scan m_db_from ts) in
   let c2 := map (fun x => db_cand names (snd (fst x)) (snd x)) (scan m_db_join ts) in
-  let c3 := map (fun x => simple_cand names ctes (fst x) (snd x)) (scan m_simple_from ts) in
-  let c4 := map (fun x => simple_cand names ctes (snd (fst x)) (snd x)) (scan m_simple_join ts) in
+  let c3 := map (fun x => simple_cand ex names ctes (fst x) (snd x)) (scan m_simple_from ts) in
+  let c4 := map (fun x => simple_cand ex names ctes (snd (fst x)) (snd x)) (scan m_simple_join ts) in
   snd (add_cands [] (c1 ++ c2 ++ c3 ++ c4)).
 
 (* header override of checkQueryPermissions *)
@@ -444,9 +462,16 @@ Definition passes_nohdr (names : names_t) (ts : list tok) : list tok :=
   let t3 := rewrite (rw_simple_from names ctes k_default) t2 in
   rewrite (rw_simple_join names ctes k_default) t3.
 Definition k_with_sp : bytes := Eval vm_compute in s2b "with ".
+(* the gate of the single-table fast paths: strings.Contains(sqlLower, "with ") / (fx_with) mayDeclareCTE *)
+Definition with_test (same : bool) (lo : bytes) : bool :=
+  if same then match cte_names (tokenize lo) with [] => false | _ => true end
+  else has_sub k_with_sp lo.
+(* the CTE names of convertSQLToStoragePathsWithHeaderDB: only after "with " / (fx_with) always *)
+Definition hdr_ctes (same : bool) (ts : list tok) : list bytes :=
+  if same then cte_names ts else if has_sub k_with_sp (lower (untok ts)) then cte_names ts else [].
 (* convertSQLToStoragePathsWithHeaderDB, slow path *)
-Definition passes_hdr (names : names_t) (hdr : bytes) (ts : list tok) : list tok :=
-  let ctes := if has_sub k_with_sp (lower (untok ts)) then cte_names ts else [] in
+Definition passes_hdr (word : bool) (names : names_t) (hdr : bytes) (ts : list tok) : list tok :=
+  let ctes := hdr_ctes word ts in
   let t3 := rewrite (rw_simple_from names ctes hdr) ts in
   rewrite (rw_simple_join names ctes hdr) t3.
 
@@ -505,25 +530,26 @@ Definition convert_single (s : bytes) (db : bytes) : bytes :=
              else firstn idx s ++ read_parquet_expr k_FROM db name ++ skipn (length name) rest
       end
   end.
-Definition fast_single_ok (s : bytes) : bool :=
+Definition fast_single_ok (word : bool) (s : bytes) : bool :=
   let f := scan_features s in
-  is_single_table (lower s) && negb (has_sub k_with_sp (lower s)) && negb (contains_from_func s)
+  is_single_table (lower s) && negb (with_test word (lower s)) && negb (contains_from_func s)
   && negb (f_quotes f) && negb (f_dash f) && negb (f_block f).
-Definition convert_hdr (s hdr : bytes) : bytes :=
-  if fast_single_ok s then convert_single s hdr
+Definition convert_hdr (word : bool) (s hdr : bytes) : bytes :=
+  if fast_single_ok word s then convert_single s hdr
   else let n := norm_p s in
-       unmask (unmask_from (untok (passes_hdr (names_of (n_masks n)) hdr (n_toks n))) (n_fmasks n)) (n_masks n).
+       unmask (unmask_from (untok (passes_hdr word (names_of (n_masks n)) hdr (n_toks n))) (n_fmasks n)) (n_masks n).
 
 (* which text reaches DuckDB: the three-way choice of getTransformedSQL[ForParallel] *)
 Inductive route := RawReadParquet | RawNoFrom | Transformed.
-Definition route_of (s : bytes) : route :=
+Definition route_of (noraw : bool) (s : bytes) : route :=
   let lo := lower s in
-  if has_sub k_read_parquet lo then RawReadParquet
+  if noraw then Transformed
+  else if has_sub k_read_parquet lo then RawReadParquet
   else if negb (has_sub k_from lo) && negb (has_sub k_join lo) then RawNoFrom
   else Transformed.
-Definition executed_text (s hdr : bytes) : bytes :=
-  match route_of s with
-  | Transformed => match hdr with [] => convert_nohdr s | _ => convert_hdr s hdr end
+Definition executed_text (fx : fixset) (s hdr : bytes) : bytes :=
+  match route_of (fx_noraw fx) s with
+  | Transformed => match hdr with [] => convert_nohdr s | _ => convert_hdr (fx_with fx) s hdr end
   | _ => s
   end.
 
@@ -600,14 +626,16 @@ Definition io_functions : list bytes := Eval vm_compute in
           "read_json_auto"; "read_json_objects"; "read_json_objects_auto"; "read_ndjson"; "read_ndjson_auto";
           "read_ndjson_objects"; "read_text"; "read_blob"; "read_xlsx"; "glob"; "delta_scan"; "iceberg_scan";
           "iceberg_metadata"; "iceberg_snapshots"; "arc_partition_agg"]%string.
-Fixpoint io_function (l : list tok) : option bytes :=
+Definition io_functions_more : list bytes := Eval vm_compute in
+  map kw ["query"; "query_table"; "json_execute_serialized_sql"; "read_duckdb"; "parquet_full_metadata"]%string.
+Fixpoint io_function (fns : list bytes) (l : list tok) : option bytes :=
   match l with
   | [] => None
   | TW w :: r =>
-      if mem_bytes (lower w) io_functions
+      if mem_bytes (lower w) fns
          && match r with TO 40 :: _ => true | TS _ :: TO 40 :: _ => true | _ => false end
-      then Some w else io_function r
-  | _ :: r => io_function r
+      then Some w else io_function fns r
+  | _ :: r => io_function fns r
   end.
 
 (* --- the table-position scanner (maskedTokenInTablePosition) ------------------------- *)
@@ -654,26 +682,32 @@ Definition is_placeholder_atom (a : bytes) : bool := prefixb w_uuSTR_ a || prefi
 
 (* fromArmed as a list indexed by depth (head = depth 0 ... ) is kept as: armed flags of the depths
    0..depth, innermost first *)
-Fixpoint tablepos (flag : bytes -> bool) (armed : list bool) (after : bool) (l : list vtok) : option bytes :=
+Definition kind_words : list bytes := Eval vm_compute in
+  map kw ["table"; "describe"; "desc"; "summarize"; "show"; "pivot"; "unpivot"; "pivot_wider"; "pivot_longer"]%string.
+(* [sc] = fx_scanner: "(" keeps afterFromJoin, LATERAL leaves the state alone, the statement-kind words set
+   afterFromJoin *)
+Fixpoint tablepos (sc : bool) (flag : bytes -> bool) (armed : list bool) (after : bool) (l : list vtok) : option bytes :=
   match l with
   | [] => None
-  | VL :: r => tablepos flag (false :: armed) false r
+  | VL :: r => tablepos sc flag (false :: armed) (sc && after) r
   | VR :: r => (match armed with
-                | _ :: (_ :: _) as outer => tablepos flag outer false r
-                | _ => tablepos flag armed false r            (* depth 0: nothing changes *)
+                | _ :: (_ :: _) as outer => tablepos sc flag outer false r
+                | _ => tablepos sc flag armed false r            (* depth 0: nothing changes *)
                 end)
-  | VC :: r => tablepos flag armed (hd false armed) r
+  | VC :: r => tablepos sc flag armed (hd false armed) r
   | VA a :: r =>
       if is_placeholder_atom a then
-        if after && flag a then Some a else tablepos flag armed false r
+        if after && flag a then Some a else tablepos sc flag armed false r
       else
         let lw := lower a in
-        if bytes_eqb lw k_from || bytes_eqb lw k_join then tablepos flag (true :: tl armed) true r
-        else if mem_bytes lw from_terminators then tablepos flag (false :: tl armed) false r
-        else tablepos flag armed false r
+        if bytes_eqb lw k_from || bytes_eqb lw k_join then tablepos sc flag (true :: tl armed) true r
+        else if sc && bytes_eqb lw k_lateral then tablepos sc flag armed after r
+        else if sc && mem_bytes lw kind_words then tablepos sc flag armed true r
+        else if mem_bytes lw from_terminators then tablepos sc flag (false :: tl armed) false r
+        else tablepos sc flag armed false r
   end.
-Definition string_in_table_pos (io_text : bytes) : bool :=
-  match tablepos (fun a => prefixb w_uuSTR_ a) [false] false (vtoks (tokenize io_text)) with
+Definition string_in_table_pos (sc : bool) (io_text : bytes) : bool :=
+  match tablepos sc (fun a => prefixb w_uuSTR_ a) [false] false (vtoks (tokenize io_text)) with
   | Some _ => true | None => false end.
 (* invalidQuotedIdentifierInTablePosition: the offending name *)
 Definition ident_flag (names : names_t) (a : bytes) : option bytes :=
@@ -683,54 +717,80 @@ Definition ident_flag (names : names_t) (a : bytes) : option bytes :=
     | Some n => if valid_identifier n then None else Some n
     end
   else None.
-Fixpoint first_flagged (names : names_t) (armed : list bool) (after : bool) (l : list vtok) : option bytes :=
+Fixpoint first_flagged (sc : bool) (names : names_t) (armed : list bool) (after : bool) (l : list vtok) : option bytes :=
   match l with
   | [] => None
-  | VL :: r => first_flagged names (false :: armed) false r
+  | VL :: r => first_flagged sc names (false :: armed) (sc && after) r
   | VR :: r => (match armed with
-                | _ :: (_ :: _) as outer => first_flagged names outer false r
-                | _ => first_flagged names armed false r
+                | _ :: (_ :: _) as outer => first_flagged sc names outer false r
+                | _ => first_flagged sc names armed false r
                 end)
-  | VC :: r => first_flagged names armed (hd false armed) r
+  | VC :: r => first_flagged sc names armed (hd false armed) r
   | VA a :: r =>
       if is_placeholder_atom a then
         match (if after then ident_flag names a else None) with
         | Some n => Some n
-        | None => first_flagged names armed false r
+        | None => first_flagged sc names armed false r
         end
       else
         let lw := lower a in
-        if bytes_eqb lw k_from || bytes_eqb lw k_join then first_flagged names (true :: tl armed) true r
-        else if mem_bytes lw from_terminators then first_flagged names (false :: tl armed) false r
-        else first_flagged names armed false r
+        if bytes_eqb lw k_from || bytes_eqb lw k_join then first_flagged sc names (true :: tl armed) true r
+        else if sc && bytes_eqb lw k_lateral then first_flagged sc names armed after r
+        else if sc && mem_bytes lw kind_words then first_flagged sc names armed true r
+        else if mem_bytes lw from_terminators then first_flagged sc names (false :: tl armed) false r
+        else first_flagged sc names armed false r
   end.
-Definition invalid_ident_in_table_pos (v_text : bytes) (masks : list smask) : option bytes :=
+Definition invalid_ident_in_table_pos (sc : bool) (v_text : bytes) (masks : list smask) : option bytes :=
   match names_of masks with
   | [] => None                                    (* identNames == nil *)
-  | names => first_flagged names [false] false (vtoks (tokenize v_text))
+  | names => first_flagged sc names [false] false (vtoks (tokenize v_text))
+  end.
+
+(* fx_denylist: the shared normalisation with every identifier placeholder replaced by its unquoted name
+   (tablePosPlaceholder.ReplaceAllStringFunc) *)
+Definition resolve_ph_text (names : names_t) (v : bytes) : bytes :=
+  untok (map (fun t => match t with
+                       | TW w => TW (flat_map (fun p => match name_lookup p names with Some n => n | None => p end) (split_word [] O w))
+                       | t => t end) (tokenize v)).
+(* fx_bsq: backslashBeforeQuote on a mask's original text *)
+Definition bsq_mask (m : smask) : bool :=
+  let o := m_orig m in
+  match o with
+  | c :: _ => if c =? 39 then has_sub [92; 39] o
+              else if c =? 34 then has_sub [92; 34] o
+              else if (c =? 101) || (c =? 69) then has_sub [92; 92; 39] o
+              else false
+  | [] => false
   end.
 
 Inductive reject :=
 | RjEmpty | RjLong | RjMulti | RjDanger | RjIO (name : bytes) | RjStrPos | RjIdentPos (name : bytes)
-| RjHeader | RjCross | RjShowDb.
+| RjHeader | RjCross | RjShowDb | RjBackslash.
 
-Definition validate (s : bytes) : option reject :=
+Definition validate (fx : fixset) (s : bytes) : option reject :=
   if match trim_space s with [] => true | _ => false end then Some RjEmpty
   else if 10000 <? N.of_nat (length s) then Some RjLong
   else
     let '(v, vmasks) := norm_v s in
-    if multi_statement v then Some RjMulti
+    if fx_bsq fx && existsb bsq_mask vmasks then Some RjBackslash
+    else if multi_statement v then Some RjMulti
     else if dangerous (tokenize v) then Some RjDanger
     else
       let io := norm_io s in
-      match io_function (tokenize io) with
+      let fns := if fx_denylist fx then io_functions ++ io_functions_more else io_functions in
+      match io_function fns (tokenize io) with
       | Some n => Some (RjIO n)
       | None =>
-          if string_in_table_pos io then Some RjStrPos
-          else match invalid_ident_in_table_pos v vmasks with
-               | Some n => Some (RjIdentPos n)
-               | None => None
-               end
+          match (if fx_denylist fx then io_function fns (tokenize (resolve_ph_text (names_of vmasks) v)) else None) with
+          | Some n => Some (RjIO n)
+          | None =>
+              if string_in_table_pos (fx_scanner fx) io
+                 || (fx_denylist fx && string_in_table_pos (fx_scanner fx) v) then Some RjStrPos
+              else match invalid_ident_in_table_pos (fx_scanner fx) v vmasks with
+                   | Some (c :: n) => Some (RjIdentPos (c :: n))
+                   | _ => None                (* also when the first offending name is EMPTY: `name != ""` *)
+                   end
+          end
       end.
 
 (* ------------------------------------------------------------------------------------ *)
@@ -817,8 +877,8 @@ Inductive outcome :=
 | OExec (checked : list ref) (rt : route) (text : bytes).
 
 Definition star : bytes := [42].
-Definition gate (s hdr : bytes) : outcome :=
-  match validate s with
+Definition gate_gen (fx : fixset) (s hdr : bytes) : outcome :=
+  match validate fx s with
   | Some r => OReject r
   | None =>
       if negb (match hdr with [] => true | _ => valid_identifier hdr end) then OReject RjHeader
@@ -834,10 +894,12 @@ Definition gate (s hdr : bytes) : outcome :=
                  if valid_identifier db then OShowTables db else OReject RjShowDb
              | None =>
                  let n := norm_p s in
-                 OExec (override_default hdr (extract_refs (names_of (n_masks n)) (n_toks n)))
-                       (route_of s) (executed_text s hdr)
+                 OExec (override_default hdr (extract_refs (fx_dedup fx) (names_of (n_masks n)) (n_toks n)))
+                       (route_of (fx_noraw fx) s) (executed_text fx s hdr)
              end
   end.
+(* the code as it was when the findings were made *)
+Definition gate := gate_gen fx_none.
 
 (* ------------------------------------------------------------------------------------ *)
 (* correspondence case: request + what the REAL handler did                               *)
@@ -845,17 +907,18 @@ Definition gate (s hdr : bytes) : outcome :=
 (* observed kind: 0 rejected by validation/header/show (400), code in [g_code];
                   1 SHOW DATABASES reached its permission check, 2 SHOW TABLES reached it (db in g_name),
                   3 the query reached checkQueryPermissions; g_exec = Some text when it was executed *)
-Record gate_case := { g_sql : bytes; g_hdr : bytes; g_kind : N; g_code : N; g_name : bytes;
+Record gate_case := { g_fix : N;             (* which repairs the current source has (fx_of_bits) *)
+                      g_sql : bytes; g_hdr : bytes; g_kind : N; g_code : N; g_name : bytes;
                       g_checked : list ref; g_exec : option bytes }.
 Definition reject_code (r : reject) : N * bytes :=
   match r with
   | RjEmpty => (1, []) | RjLong => (2, []) | RjMulti => (3, []) | RjDanger => (4, [])
   | RjIO n => (5, lower n) | RjStrPos => (6, []) | RjIdentPos n => (7, n)
-  | RjHeader => (8, []) | RjCross => (9, []) | RjShowDb => (10, [])
+  | RjHeader => (8, []) | RjCross => (9, []) | RjShowDb => (10, []) | RjBackslash => (11, [])
   end.
 Definition ref_eqb (a b : ref) : bool := bytes_eqb (fst a) (fst b) && bytes_eqb (snd a) (snd b).
 Definition gate_case_agrees (c : gate_case) : bool :=
-  match gate (g_sql c) (g_hdr c) with
+  match gate_gen (fx_of_bits (g_fix c)) (g_sql c) (g_hdr c) with
   | OReject r => (g_kind c =? 0) && (fst (reject_code r) =? g_code c) && bytes_eqb (snd (reject_code r)) (g_name c)
   | OShowDatabases => (g_kind c =? 1) && list_eqb ref_eqb (g_checked c) [(star, star)]
   | OShowTables db => (g_kind c =? 2) && list_eqb ref_eqb (g_checked c) [(db, star)]
@@ -1077,27 +1140,28 @@ Definition pathlike_free (s : bytes) : bool :=
   forallb (fun m => negb (pathlike (m_orig m))) (n_masks (norm_p s)).
 
 (* the references that the rewritten statement reads, for a request text *)
-Definition request_reads (s hdr : bytes) : list ref :=
+Definition request_reads (fx : fixset) (s hdr : bytes) : list ref :=
   let n := norm_p s in
   let names := names_of (n_masks n) in
   let segs := segs_of (n_toks n) in
   match hdr with
   | [] => rewritten_refs names (cte_names (n_toks n)) k_default true segs
-  | _ => rewritten_refs names (if has_sub k_with_sp (lower (untok (n_toks n))) then cte_names (n_toks n) else []) hdr false segs
+  | _ => rewritten_refs names (hdr_ctes (fx_with fx) (n_toks n)) hdr false segs
   end.
 
 (* correspondence: the guard classes and the oracle, evaluated on every generated case *)
 Definition case_in_grammar (c : gate_case) : bool :=
   let n := norm_p (g_sql c) in in_grammar (names_of (n_masks n)) (n_toks n).
 Definition case_pathlike_free (c : gate_case) : bool := pathlike_free (g_sql c).
+Definition case_fx (c : gate_case) : fixset := fx_of_bits (g_fix c).
 Definition case_header_ctes_ok (c : gate_case) : bool :=
   let ts := n_toks (norm_p (g_sql c)) in
   match g_hdr c with
   | [] => true
-  | _ => has_sub k_with_sp (lower (untok ts)) || match cte_names ts with [] => true | _ => false end
+  | _ => fx_with (case_fx c) || has_sub k_with_sp (lower (untok ts)) || match cte_names ts with [] => true | _ => false end
   end.
 Definition case_slow_path (c : gate_case) : bool :=
-  match g_hdr c with [] => true | _ => negb (fast_single_ok (g_sql c)) end.
+  match g_hdr c with [] => true | _ => negb (fast_single_ok (fx_with (case_fx c)) (g_sql c)) end.
 (* the oracle of C14 on the IMPLEMENTATION's observation: every measurement that DuckDB opened
    ([reads], measured by the harness) was permission-checked *)
 Definition reads_checked_exact (checked reads : list ref) : bool := forallb (covers_exact checked) reads.
@@ -1112,15 +1176,15 @@ Definition refs_subset (a b : list ref) : bool := forallb (fun r => ref_mem r b)
 Definition read_case_in_domain (c : read_case) : bool :=
   let g := r_gate c in
   case_in_grammar g && case_pathlike_free g && case_header_ctes_ok g && case_slow_path g
-  && match route_of (g_sql g) with Transformed => true | _ => false end.
+  && match route_of (fx_noraw (case_fx g)) (g_sql g) with Transformed => true | _ => false end.
 Definition read_case_agrees (c : read_case) : bool :=
   negb (read_case_in_domain c)
-  || (let pred := filter (fun r => ref_mem r (r_existing c)) (request_reads (g_sql (r_gate c)) (g_hdr (r_gate c))) in
+  || (let pred := filter (fun r => ref_mem r (r_existing c)) (request_reads (case_fx (r_gate c)) (g_sql (r_gate c)) (g_hdr (r_gate c))) in
       refs_subset (r_reads c) pred).
 (* ... and exactly those (fails only when DuckDB does not bind a part of the statement, e.g. an unused CTE) *)
 Definition read_case_exact (c : read_case) : bool :=
   negb (read_case_in_domain c)
-  || (let pred := filter (fun r => ref_mem r (r_existing c)) (request_reads (g_sql (r_gate c)) (g_hdr (r_gate c))) in
+  || (let pred := filter (fun r => ref_mem r (r_existing c)) (request_reads (case_fx (r_gate c)) (g_sql (r_gate c)) (g_hdr (r_gate c))) in
       refs_subset pred (r_reads c) && refs_subset (r_reads c) pred).
 (* the oracle of C14 on the implementation's observation *)
 Definition read_case_oracle (c : read_case) : bool := reads_checked (g_checked (r_gate c)) (r_reads c).
@@ -1136,13 +1200,14 @@ Definition read_case_flags (c : read_case) : N :=
   let ts := n_toks n in
   let ing := in_grammar names ts in
   let plf := forallb (fun m => negb (pathlike (m_orig m))) (n_masks n) in
+  let fx := case_fx g in
   let hok := match g_hdr g with
              | [] => true
-             | _ => has_sub k_with_sp (lower (untok ts)) || match cte_names ts with [] => true | _ => false end
+             | _ => fx_with fx || has_sub k_with_sp (lower (untok ts)) || match cte_names ts with [] => true | _ => false end
              end in
   let slow := case_slow_path g in
-  let dom := ing && plf && hok && slow && match route_of s with Transformed => true | _ => false end in
-  let pred := if dom then filter (fun r => ref_mem r (r_existing c)) (request_reads s (g_hdr g)) else [] in
+  let dom := ing && plf && hok && slow && match route_of (fx_noraw fx) s with Transformed => true | _ => false end in
+  let pred := if dom then filter (fun r => ref_mem r (r_existing c)) (request_reads fx s (g_hdr g)) else [] in
   bit (gate_case_agrees g) 0 + bit ing 1 + bit plf 2 + bit hok 3 + bit slow 4 + bit dom 5
   + bit (negb dom || refs_subset (r_reads c) pred) 6
   + bit (read_case_oracle c) 7 + bit (read_case_oracle_exact c) 8
